@@ -70,6 +70,10 @@ def inline_body(prog, body, known, depth=0, stack=(), force=None):
         prog.inlined_into = {}
     for bi, key in todo:
         prog.inlined_into.setdefault(key, set()).add(prog.key_of(body))
+        if j['blocks'][bi]['term'].get('synthetic') and depth == 0:
+            if not hasattr(prog, 'closure_inlined'):
+                prog.closure_inlined = {}
+            prog.closure_inlined[key] = prog.closure_inlined.get(key, 0) + 1
     nj = dict(j)
     nj['locals'] = list(j['locals'])
     nj['blocks'] = [dict(b) for b in j['blocks']]
@@ -156,6 +160,22 @@ def apply(prog, verif_dir):
             prog.absorbed_bodies[key] = prog.bodies.pop(key)
             prog._callers = None
             changed = True
+    # a closure consumed by a desugared combinator lives on only inside the function that used it
+    made = {}
+    for b in prog.bodies.values():
+        for bl in b.blocks:
+            if bl['cleanup']:
+                continue
+            for st in bl['stmts']:
+                if st['s'] == 'assign' and st['rv']['rv'] == 'agg' and st['rv'].get('kind') == 'closure':
+                    for key in (st['rv']['closure'], b.crate + '::' + st['rv']['closure']):
+                        if key in prog.bodies:
+                            made[key] = made.get(key, 0) + 1
+                            break
+    for key, n_in in getattr(prog, 'closure_inlined', {}).items():
+        if key in prog.bodies and made.get(key, 0) <= n_in:
+            prog.absorbed_bodies[key] = prog.bodies.pop(key)
+            prog._callers = None
     for key, callers in into.items():
         if key in prog.absorbed_bodies:
             for ck in callers:
